@@ -193,6 +193,10 @@ func (muxerSlice) Gen(r *rand.Rand, _ int, tier string) ([]string, []string) {
 		nWrites = 400 + r.Intn(1200)
 		tags = append(tags, "long")
 	}
+	if variant == "ts" && len(tracks) == 1 && tracks[0].codec == "aac" {
+		nWrites = 130 + r.Intn(300) // audio-only MPEG-TS cuts only after 100 writes
+		tags = append(tags, "ts-audio-only-long")
+	}
 	pay := 0
 	snapEvery := 1 + r.Intn(6)
 	sawReq := false
